@@ -32,6 +32,25 @@ Fixpoint observed (g : Z) (t : node) : bool :=
   | _ => false
   end.
 
+(* what the search actually READS of a group's capture stack: the same without the "g = a" side of
+   a balancing capture (which only writes a).  [reads g t = true -> observed g t = true]; the
+   theorems below are proved from the weaker hypothesis on [reads] and restated for [observed]. *)
+Fixpoint reads (g : Z) (t : node) : bool :=
+  match t with
+  | NRef _ g' => g =? g'
+  | NConcat _ l => existsb (reads g) l
+  | NAlternate _ l => existsb (reads g) l
+  | NLoop _ _ _ _ r => reads g r
+  | NCapture _ a u r => (negb (u =? -1) && (g =? u)) || reads g r
+  | NGroup r => reads g r
+  | NPosLook _ r => reads g r
+  | NNegLook _ r => reads g r
+  | NAtomic r => reads g r
+  | NBackRefCond _ g' yes no => (g =? g') || reads g yes || opt_b (reads g) no
+  | NExprCond _ c yes no => reads g c || reads g yes || opt_b (reads g) no
+  | _ => false
+  end.
+
 (* replace every plain capture of a group that is not kept by a non-capturing group *)
 Fixpoint erase (keep : Z -> bool) (t : node) : node :=
   match t with
@@ -49,9 +68,9 @@ Fixpoint erase (keep : Z -> bool) (t : node) : node :=
   | _ => t
   end.
 
-(* no erased group is observed *)
+(* no erased group is read *)
 Definition unobs (keep : Z -> bool) (t : node) : Prop :=
-  forall g, keep g = false -> observed g t = false.
+  forall g, keep g = false -> reads g t = false.
 
 Definition caps_agree (keep : Z -> bool) (c1 c2 : caps_t) : Prop :=
   forall g, keep g = true -> cap_get g c1 = cap_get g c2.
@@ -196,6 +215,36 @@ Lemma er_Forall2_map {A B} (R : A -> A -> Prop) (R' : B -> B -> Prop) (f g : A -
   (forall a b, R a b -> R' (f a) (g b)) -> Forall2 R l1 l2 -> Forall2 R' (map f l1) (map g l2).
 Proof. intros H HF. induction HF; cbn [map]; constructor; auto. Qed.
 
+Lemma er_reads_observed g : forall t, reads g t = true -> observed g t = true.
+Proof.
+  induction t as [kd o ch|kd lk o ch m n|o str|o g'|an| | | |o l HF|o l HF|lazy o m n r IHr|o a u r IHr
+                 |r IHr|o r IHr|o r IHr|r IHr|o g' yes no IHy IHn|o cnd yes no IHc IHy IHn]
+    using node_ind'; cbn [reads observed]; intros H; try assumption; try (apply IHr; assumption).
+  - apply existsb_exists in H. destruct H as [x [Hx Hr]]. apply existsb_exists. exists x.
+    split; [exact Hx|]. rewrite Forall_forall in HF. exact (HF x Hx Hr).
+  - apply existsb_exists in H. destruct H as [x [Hx Hr]]. apply existsb_exists. exists x.
+    split; [exact Hx|]. rewrite Forall_forall in HF. exact (HF x Hx Hr).
+  - apply orb_prop in H. destruct H as [H|H].
+    + apply andb_prop in H. destruct H as [H1 H2]. rewrite H1, H2, orb_true_r. reflexivity.
+    + rewrite (IHr H). apply orb_true_r.
+  - apply orb_prop in H. destruct H as [H|H].
+    + apply orb_prop in H. destruct H as [H|H]; [rewrite H; reflexivity|].
+      rewrite (IHy H), orb_true_r. reflexivity.
+    + destruct no as [x|]; cbn [opt_b opt_all] in *; [|discriminate H].
+      rewrite (IHn H). apply orb_true_r.
+  - apply orb_prop in H. destruct H as [H|H].
+    + apply orb_prop in H. destruct H as [H|H]; [rewrite (IHc H); reflexivity|].
+      rewrite (IHy H), orb_true_r. reflexivity.
+    + destruct no as [x|]; cbn [opt_b opt_all] in *; [|discriminate H].
+      rewrite (IHn H). apply orb_true_r.
+Qed.
+
+Lemma er_unobs_of_observed keep t : (forall g, keep g = false -> observed g t = false) -> unobs keep t.
+Proof.
+  intros H g Hk. destruct (reads g t) eqn:E; [|reflexivity].
+  rewrite <- (H g Hk). symmetry. apply er_reads_observed. exact E.
+Qed.
+
 (* ------------------------------------------------------------------------------------------ *)
 (* E1                                                                                          *)
 
@@ -210,8 +259,8 @@ Lemma er_unobs_in o l x :
   (unobs keep (NConcat o l) \/ unobs keep (NAlternate o l)) -> In x l -> unobs keep x.
 Proof.
   intros H Hin g Hk.
-  assert (Hl : existsb (observed g) l = false) by (destruct H as [H|H]; exact (H g Hk)).
-  destruct (observed g x) eqn:E; [|reflexivity].
+  assert (Hl : existsb (reads g) l = false) by (destruct H as [H|H]; exact (H g Hk)).
+  destruct (reads g x) eqn:E; [|reflexivity].
   rewrite <- Hl. symmetry. apply existsb_exists. exists x. split; assumption.
 Qed.
 
@@ -264,7 +313,7 @@ Proof.
     cbn [erase sem rrel]. unfold sem_ref.
     assert (Hk : keep g = true).
     { destruct (keep g) eqn:Ek; [reflexivity|]. pose proof (Hun g Ek) as Ho.
-      cbn [observed] in Ho. rewrite Z.eqb_refl in Ho. discriminate Ho. }
+      cbn [reads] in Ho. rewrite Z.eqb_refl in Ho. discriminate Ho. }
     rewrite <- (Hc g Hk), <- Hp.
     destruct (cap_get g (caps s1)) as [|[i len] rest].
     + destruct (ecma e); [apply er_one; exact Hag|constructor].
@@ -309,7 +358,7 @@ Proof.
     intros a b Hab. rewrite <- Hp. apply HI. exact Hab.
   - (* NCapture *)
     assert (Hr : unobs keep r).
-    { intros g0 Hk. pose proof (Hun g0 Hk) as Ho. cbn [observed] in Ho.
+    { intros g0 Hk. pose proof (Hun g0 Hk) as Ho. cbn [reads] in Ho.
       apply orb_false_elim in Ho. exact (proj2 Ho). }
     cbn [erase]. destruct (u =? -1) eqn:Eu; cbn [andb].
     + destruct (keep g) eqn:Ek; cbn [negb sem]; rewrite Eu.
@@ -326,11 +375,11 @@ Proof.
         apply (er_Forall2_map (agree keep) (agree keep)); [|exact Hrel].
         intros a b [Hpab Hcab]. split; cbn [pos caps]; [exact Hpab|].
         unfold cap_push. apply er_ca_set_left; assumption.
-    + (* balancing capture: u is observed, hence kept *)
+    + (* balancing capture: u is read, hence kept *)
       cbn [sem]. rewrite Eu.
       assert (Hku : keep u = true).
       { destruct (keep u) eqn:Ek; [reflexivity|]. pose proof (Hun u Ek) as Ho.
-        cbn [observed] in Ho. rewrite Eu, Z.eqb_refl, orb_true_r in Ho. discriminate Ho. }
+        cbn [reads] in Ho. rewrite Eu, Z.eqb_refl in Ho. discriminate Ho. }
       apply (er_rrel_bindr (agree keep) (agree keep)); [apply IH; assumption|].
       intros a b [Hpab Hcab]. rewrite <- (Hcab u Hku).
       destruct (cap_get u (caps a)) as [|top rest]; [constructor|].
@@ -360,30 +409,30 @@ Proof.
     cbn [erase sem].
     assert (Hk : keep g = true).
     { destruct (keep g) eqn:Ek; [reflexivity|]. pose proof (Hun g Ek) as Ho.
-      cbn [observed] in Ho. rewrite Z.eqb_refl in Ho. discriminate Ho. }
+      cbn [reads] in Ho. rewrite Z.eqb_refl in Ho. discriminate Ho. }
     assert (Hy : unobs keep yes).
-    { intros g0 Hk0. pose proof (Hun g0 Hk0) as Ho. cbn [observed] in Ho.
+    { intros g0 Hk0. pose proof (Hun g0 Hk0) as Ho. cbn [reads] in Ho.
       apply orb_false_elim in Ho. destruct Ho as [Ho _]. apply orb_false_elim in Ho. exact (proj2 Ho). }
     unfold is_matched. rewrite <- (Hc g Hk).
     destruct (cap_get g (caps s1)).
     + destruct no as [n|]; cbn [mask_opt_node].
-      * apply IH; [|exact Hag]. intros g0 Hk0. pose proof (Hun g0 Hk0) as Ho. cbn [observed] in Ho.
+      * apply IH; [|exact Hag]. intros g0 Hk0. pose proof (Hun g0 Hk0) as Ho. cbn [reads] in Ho.
         apply orb_false_elim in Ho. exact (proj2 Ho).
       * cbn [rrel]. apply er_one; exact Hag.
     + apply IH; assumption.
   - (* NExprCond *)
     cbn [erase sem].
     assert (Hcn : unobs keep c).
-    { intros g0 Hk0. pose proof (Hun g0 Hk0) as Ho. cbn [observed] in Ho.
+    { intros g0 Hk0. pose proof (Hun g0 Hk0) as Ho. cbn [reads] in Ho.
       apply orb_false_elim in Ho. destruct Ho as [Ho _]. apply orb_false_elim in Ho. exact (proj1 Ho). }
     assert (Hy : unobs keep yes).
-    { intros g0 Hk0. pose proof (Hun g0 Hk0) as Ho. cbn [observed] in Ho.
+    { intros g0 Hk0. pose proof (Hun g0 Hk0) as Ho. cbn [reads] in Ho.
       apply orb_false_elim in Ho. destruct Ho as [Ho _]. apply orb_false_elim in Ho. exact (proj2 Ho). }
     apply (er_rrel_bind (Forall2 (agree keep)) (Forall2 (agree keep))).
     + apply er_rrel_first_only. apply IH; assumption.
     + intros l1 l2 HF. destruct HF as [|a b l1 l2 Hab HF].
       * destruct no as [n|]; cbn [mask_opt_node].
-        -- apply IH; [|exact Hag]. intros g0 Hk0. pose proof (Hun g0 Hk0) as Ho. cbn [observed] in Ho.
+        -- apply IH; [|exact Hag]. intros g0 Hk0. pose proof (Hun g0 Hk0) as Ho. cbn [reads] in Ho.
            apply orb_false_elim in Ho. exact (proj2 Ho).
         -- cbn [rrel]. apply er_one; exact Hag.
       * rewrite <- Hp. apply IH; [exact Hy|]. apply er_agree_with_pos. exact Hab.
@@ -461,9 +510,14 @@ Theorem erase_find e keep fuel root rtl start prevlen :
   (r1 = Ok None <-> r2 = Ok None) /\
   (r1 = Fuel <-> r2 = Fuel).
 Proof.
-  intros Hun r1 r2.
+  intros Hun r1 r2. apply er_unobs_of_observed in Hun.
   exact (er_rrel_opt_spelled keep r1 r2 (erase_find_rel e keep fuel root rtl start prevlen Hun)).
 Qed.
+
+Theorem erase_unobserved_obs e keep fuel t s1 s2 :
+  (forall g, keep g = false -> observed g t = false) -> agree keep s1 s2 ->
+  rrel (Forall2 (agree keep)) (sem e fuel t s1) (sem e fuel (erase keep t) s2).
+Proof. intros Hun. apply erase_unobserved. apply er_unobs_of_observed. exact Hun. Qed.
 
 (* the same for one attempt at a given position *)
 Theorem erase_attempt_spelled e keep fuel root p :
@@ -475,7 +529,8 @@ Theorem erase_attempt_spelled e keep fuel root p :
   (r1 = Ok None <-> r2 = Ok None) /\
   (r1 = Fuel <-> r2 = Fuel).
 Proof.
-  intros Hun r1 r2. exact (er_rrel_opt_spelled keep r1 r2 (erase_attempt e keep fuel root p Hun)).
+  intros Hun r1 r2. apply er_unobs_of_observed in Hun.
+  exact (er_rrel_opt_spelled keep r1 r2 (erase_attempt e keep fuel root p Hun)).
 Qed.
 
 (* and for the executable continuation-passing search, whenever the reference terminates *)
